@@ -17,6 +17,27 @@ audience
 """
 
 
+def config_two_periods(names):
+    out = CFG_HEAD
+    for i, n in enumerate(names):
+        out += "  m%d audits only while mood == 'red'\n  m%d expects %s: [a s] > 0 && t >= 0\n" % (i, i, n)
+    out += "end\n"
+    return out
+
+
+def events_two_periods(w1, w2):
+    evs, t = [], 1.0
+    for w in (w1, w2):
+        evs.append({"Kind": "mood", "Ts": t, "Mood": "red"})
+        t += 1
+        for b in w:
+            evs.append({"Kind": "sig", "Ts": t, "Values": [{"Actor": "a", "Sig": "s", "Typ": 1, "Val": 1.0 if b else 0.0}]})
+            t += 1
+        evs.append({"Kind": "mood", "Ts": t, "Mood": "clear"})
+        t += 1
+    return evs
+
+
 def config_for(names):
     """one auditor per modality, all judging the same scripted predicate `[a s] > 0`; the
     `t >= 0` conjunct makes the auditor sensitive to time so that the period is opened in the
@@ -127,6 +148,36 @@ def run(tier, seed):
     rep.kdis = []
     rep.ofail = []
 
+    def judge_pair(w1, w2):
+        """two activation periods of the same auditors: each period is judged on its own words"""
+        from . import audgen
+        r = impl.call("audition", Args={"Parse": {"Text": config_two_periods(names)},
+                                        "Events": events_two_periods(w1, w2), "EpochOffset": 1000.0})
+        if r.get("Panicked") or r.get("harnessCrash") or r.get("Err"):
+            rep.violation("audit loop failed on two scripted periods", {"words": [wstr(w1), wstr(w2)], "result": r}, tags={"kind": "crash"})
+            return
+        stream = audgen.parse_impl(r)["stream"]
+        for i, n in enumerate(names):
+            periods, cur = [], None
+            for it in stream:
+                if it[0] == "start" and it[1] == "m%d" % i:
+                    cur = []
+                elif it[0] == "stop" and it[1] == "m%d" % i and cur is not None:
+                    periods.append(cur)
+                    cur = None
+                elif it[0] == "rep" and it[2] == "m%d" % i and cur is not None:
+                    cur.append(str(it[3]))
+            rep.case((n, wstr(w1), wstr(w2)))
+            rep.count("two-periods")
+            for k, (w, mine) in enumerate(zip((w1, w2), periods + [[], []])):
+                codes = ",".join(mine) or "-"
+                o = model.ask("C01 oracle %s %s %s" % (hexn[n], wstr(w), codes))
+                if len(periods) != 2 or o != "ok":
+                    rep.count("O-fail")
+                    rep.ofail.append({"modality": n, "word": wstr(w), "impl_reports": codes, "oracle": o if len(periods) == 2 else "expected two closed periods, got %d" % len(periods),
+                                      "origin": "period %d of two (%s then %s)" % (k + 1, wstr(w1), wstr(w2)),
+                                      "config": config_two_periods(names), "events": events_two_periods(w1, w2)})
+
     # G broken?  ask the verified machinery for distinguishing words first and replay them.
     if not ok:
         for n in names:
@@ -142,6 +193,10 @@ def run(tier, seed):
     for word in all_words(maxlen):
         judge_word(word, "exhaustive<=%d" % maxlen)
     rng = SplitMix(seed)
+    short = all_words(3 if tier == "quick" else 4)
+    for w1 in short:
+        judge_pair(w1, rng.pick(short))
+        judge_pair(rng.pick(short), w1)
     for _ in range(40 if tier == "quick" else 400):
         L = rng.range(maxlen + 1, 200)
         p = rng.range(1, 9)
